@@ -55,7 +55,6 @@ func BadgerOptions(dir string) badgerdb.Options {
 	o := badgerdb.DefaultOptions(dir).
 		WithLoggingLevel(badgerdb.ERROR).
 		WithMemTableSize(8 << 20).
-		WithValueThreshold(1 << 10).
 		WithNumCompactors(2).
 		WithBlockCacheSize(0).
 		WithIndexCacheSize(0).
@@ -63,7 +62,7 @@ func BadgerOptions(dir string) badgerdb.Options {
 	if dir == "" {
 		o = o.WithInMemory(true)
 	} else {
-		o = o.WithValueLogFileSize(1 << 20)
+		o = o.WithValueLogFileSize(1 << 20).WithValueThreshold(1 << 10) // on disk: values above 1 KiB go through the value log
 	}
 	return o
 }
